@@ -31,6 +31,14 @@ CHECKS = {
          "Tie: recurring jobs on the real Worker over virtual time (periods × duration profiles × outcome patterns × deferred_until), successorOk on every requeue, message count after every iteration, spacingOk on consecutive scheduled times.",
          "cron branch not exercised (croniter absent); spacing clause PARTIAL (known finding F5).",
          "Lean 4 proof (arithmetic + case analysis) + differential correspondence over virtual time", "§5 C06"),
+ "C09": ("Lean: transition system of the runner's slot bookkeeping (deliver / pause / acquire / hand-over / wake chain / spawn / done / cancellation; asyncio.Semaphore 3.12 semantics); invariant slots-conserved ∧ no-blocked-waiter-with-a-free-slot ∧ started = processed + in-flight for EVERY event sequence: inflight_le_limit, no_lost_wakeup, progress, done_frees. "
+         "Tie: step-level acceptor — the real runner's counters after EVERY event-loop callback of real Worker runs (limits × queues × durations × arrivals × pause latency × store faults) must be explained by model events (subset construction over hidden state); running actor bodies ≤ limit at every callback; all jobs executed before the bound.",
+         "liveness on the implementation observed up to a virtual-time bound; semaphore fairness trusted.",
+         "Lean 4 proof (invariant over all event sequences) + step-level acceptor on the real worker", "§5 C09"),
+ "C10": ("Lean (same runner model): stops_after_M_finished, processed_lt_M_before_stop, started_le_processed_plus_limit, started_le_M_partial (bound M−1+tasks_limit while not stopped) + refutations overshoot_witness / overshoot_witness_limit1 (the ≤ M clause is false on the current code). "
+         "Tie: acceptor with maxTasks = M on real Worker runs (M × backlog × durations × tasks_limit × queues), executions started, return of run(), leftover queue content and counters, run-on-enqueue plugin mode.",
+         "PARTIAL: upper bound clause recorded as known finding F4 (attributed only when the run is explained event-for-event by the model).",
+         "Lean 4 proof + step-level acceptor on the real worker", "§5 C10"),
  "C12": ("Lean: a normal poll never returns an overdue message (mem_no_expired_delivery), an overdue head is dead-lettered and stays retrievable (mem_expired_to_dead, mem_dead_retrievable), nothing but nack or an overdue poll adds to the dead letters (mem_live_not_dropped, all atoms), boundary and TTL-clock theorems. "
          "Tie: sessions + exhaustive boundary table (ttl × message kind × −1/0/+1 µs) + idle-consumer arrivals on the real broker.",
          "in-memory broker only so far.",
